@@ -219,9 +219,11 @@ impl Sim {
 		let mark = self.log.len();
 		let res = if let Some(pre) = r.keysend_preimage {
 			let payee = self.w.node_id(R);
-			let mut pp = PaymentParameters::for_keysend(payee, r.final_delta, false);
-			// no shadow CLTV offset: the generated delta is what goes on the wire
-			pp.max_total_cltv_expiry_delta = r.final_delta;
+			// The router wants max_total_cltv_expiry_delta > final delta and then adds a "shadow" offset of
+			// min(>= 40, what is left) = 1 to the final hop: ask for one less, leave room for exactly one.
+			let d = r.final_delta.max(2);
+			let mut pp = PaymentParameters::for_keysend(payee, d - 1, false);
+			pp.max_total_cltv_expiry_delta = d;
 			let mut rp = RouteParameters::from_payment_params_and_value(pp, r.amt);
 			rp.max_total_routing_fee_msat = None;
 			self.w.nodes[from].node.send_spontaneous_payment(Some(PaymentPreimage(pre)), onion, id, rp, Retry::Attempts(0)).map(|_| ()).map_err(|e| format!("{:?}", e))
@@ -254,7 +256,10 @@ impl Sim {
 			while self.deliver(R, from, 1) > 0 {}
 		}
 		self.w.trim();
-		Ok(Part { id: part_id, chan, htlc_id: m.htlc_id, hash: r.hash, amt: m.amount_msat, cltv: m.cltv_expiry, secret: r.secret, total: r.total, metadata: r.metadata.clone(), tlvs: onion_tlvs_sorted(&r.tlvs), keysend: r.keysend_preimage })
+		// documented (`RecipientOnionFields::spontaneous_empty`): without a payment secret the onion cannot
+		// carry a total, so it is ignored and the HTLC stands for itself
+		let total = if r.secret.is_none() { m.amount_msat } else { r.total };
+		Ok(Part { id: part_id, chan, htlc_id: m.htlc_id, hash: r.hash, amt: m.amount_msat, cltv: m.cltv_expiry, secret: r.secret, total, metadata: r.metadata.clone(), tlvs: onion_tlvs_sorted(&r.tlvs), keysend: r.keysend_preimage })
 	}
 
 	/// Let R (and everybody else) process pending HTLCs, deliver everything, handle events, until quiet.
